@@ -105,7 +105,16 @@ func vfInstallHooks() {
 		vfCh.shuffle("strings", vfSig(l), len(l), func(i, j int) { l[i], l[j] = l[j], l[i] })
 		return true
 	}
-	verifHooks.pick = func(idx, n int) int { return vfCh.choose("pick", "", 0, n, 0) }
+	verifHooks.pick = func(idx, n int) int {
+		if n > 16 {
+			// a draw from a large range (the announce-retry jitter, 1..1000 ms): the explorer owns the two ends
+			if vfCh.choose("jitter", fmt.Sprint(n), 0, 2, 0) == 1 {
+				return n - 1
+			}
+			return 0
+		}
+		return vfCh.choose("pick", "", 0, n, 0)
+	}
 	verifHooks.pickPeer = func(ids []peer.ID) int {
 		// map iteration order would decide; canonical order, the explorer picks
 		sort.Slice(ids, func(i, j int) bool { return vfName(ids[i]) < vfName(ids[j]) })
